@@ -49,6 +49,7 @@ PROPS = {
     "C06": {
         "gens": [{"name": "muldiv", "harness": "kernharness", "quick": 2500, "thorough": 9000},
                  {"name": "dec", "harness": "kernharness", "quick": 1500, "thorough": 6000},
+                 {"name": "divrec", "harness": "kernharness", "quick": 400, "thorough": 3000},
                  {"name": "C01", "quick": 1200, "thorough": 6000}],
         "needs": ["apiharness", "kernharness"],
         "nontrivial": {"karatsuba", "karatsubaSqr", "basicSqr", "long", "recursive", "inexact"},
@@ -72,6 +73,7 @@ PROPS = {
         "build_configs": True,
     },
     "C18": {
+        "known_ok": ["fma-product-exponent-out-of-range"],
         "gens": [{"name": "shared", "harness": "kernharness", "quick": 40, "thorough": 300},
                  {"name": "decpoison", "harness": "kernharness", "quick": 1500, "thorough": 6000},
                  {"name": "C09", "quick": 150, "thorough": 1000}],
@@ -82,6 +84,7 @@ PROPS = {
                  "Mul Quo Add Sqrt FMA Cmp Text GobEncode Int on shared operands compared with the sequential result (support, not proof)"),
     },
     "C08": {
+        "known_ok": ["fma-product-exponent-out-of-range"],
         "gens": [{"name": "C08", "quick": 250, "thorough": 1500}, {"name": "C12", "quick": 1500, "thorough": 6000}, {"name": "C17", "quick": 600, "thorough": 3000},
                  {"name": "C20", "quick": 500, "thorough": 3000}, {"name": "setters", "quick": 400, "thorough": 2000}],
         "nontrivial": {"inexact", "range", "alias", "special"},
@@ -89,6 +92,7 @@ PROPS = {
         "level": "proof",
     },
     "C09": {
+        "known_ok": ["fma-product-exponent-out-of-range"],
         "gens": [{"name": "C09", "quick": 250, "thorough": 1500}, {"name": "setters", "quick": 600, "thorough": 4000}, {"name": "C20", "quick": 400, "thorough": 3000},
                  {"name": "C17", "quick": 800, "thorough": 4000}, {"name": "C05", "quick": 400, "thorough": 2000}, {"name": "C12", "quick": 500, "thorough": 3000}],
         "nontrivial": {"inexact", "range", "alias", "special"},
